@@ -1069,6 +1069,26 @@ def clear_config(clear_constants=False):
     _OPERATIVE_CONFIG.clear()
 
 
+def _iterate_parsed_references(value, _seen=None):
+  """Yields the references inside the lists, tuples and dicts of a parsed value.
+
+  Unlike `iterate_references` this never iterates anything else: a bound value
+  may be a generator, an array or any other object only its consumer may walk.
+  """
+  if isinstance(value, ConfigurableReference):
+    yield value
+  elif type(value) in (list, tuple, dict):
+    _seen = set() if _seen is None else _seen
+    if id(value) in _seen:
+      return
+    _seen.add(id(value))
+    items = value
+    if type(value) is dict:
+      items = list(value.keys()) + list(value.values())
+    for item in items:
+      yield from _iterate_parsed_references(item, _seen)
+
+
 def bind_parameter(binding_key,
                    value,
                    location: Optional[config_parser.Location] = None):
@@ -1112,7 +1132,7 @@ def bind_parameter(binding_key,
   # registration, e.g. `m.C.method.x = @m.C`). References inside `value` were
   # created before that and are not in the config yet, so point them at the
   # current registration here.
-  for reference in iterate_references(value):
+  for reference in _iterate_parsed_references(value):
     stale = reference.configurable
     if _REGISTRY.get(stale.selector) != stale:  # Superseded registration.
       current = _inverse_lookup(stale.wrapped)
